@@ -28,6 +28,7 @@ type UnitResult struct {
 	Outcomes       int                  `json:"distinct_outcomes"`
 	OutcomeSample  []string             `json:"outcome_sample,omitempty"`
 	BoundCompleted int                  `json:"bound_completed"`
+	Capped         bool                 `json:"capped,omitempty"` // explored with a bound below the unit's own (first thorough pass)
 	CapHit         bool                 `json:"cap_hit,omitempty"` // the unit's execution cap, not its deadline, ended the exploration
 	Exhaustive     bool                 `json:"exhaustive"`
 	Violations     []vrt.FoundViolation `json:"violations,omitempty"`
@@ -145,13 +146,19 @@ func worker(prop, tier string) {
 	out := bufio.NewWriter(os.Stdout)
 	for in.Scan() {
 		parts := strings.Fields(in.Text())
-		if len(parts) != 2 {
+		if len(parts) < 2 {
 			continue
 		}
 		idx, _ := strconv.Atoi(parts[0])
 		dl, _ := strconv.ParseInt(parts[1], 10, 64)
+		boundCap = -1
+		if len(parts) > 2 {
+			boundCap, _ = strconv.Atoi(parts[2])
+		}
 		start := time.Now()
+		capApplied = false
 		res := units[idx].Run(time.UnixMilli(dl))
+		res.Capped = capApplied
 		res.Name = units[idx].Name
 		res.WallMS = time.Since(start).Milliseconds()
 		b, err := json.Marshal(res)
@@ -165,6 +172,20 @@ func worker(prop, tier string) {
 			os.Exit(0)
 		}
 	}
+}
+
+// boundCap (>= 0) limits the deviation bound of the unit being run: the thorough tier first takes every
+// unit to the quick tier's bound, then deepens.
+var boundCap = -1
+
+var capApplied bool
+
+func capBound(b int) int {
+	if boundCap >= 0 && b > boundCap {
+		capApplied = true
+		return boundCap
+	}
+	return b
 }
 
 type knownFinding struct {
@@ -287,6 +308,7 @@ func coordinator(prop, tier string) int {
 	var infra []string
 	self, _ := os.Executable()
 	passes := 0
+	passCap := -1
 	runPass := func(pending []int) {
 	passes++
 	jobs := make(chan int, len(pending))
@@ -341,7 +363,7 @@ func coordinator(prop, tier string) int {
 				dealt++
 				mu.Unlock()
 				ud := deadline
-				if left > nw && tier == "thorough" {
+				if left > nw && tier == "thorough" && passCap < 0 {
 					share := time.Duration(int64(time.Until(deadline)) * int64(nw) / int64(left))
 					if share < 15*time.Second {
 						share = 15 * time.Second
@@ -350,7 +372,7 @@ func coordinator(prop, tier string) int {
 						ud = d
 					}
 				}
-				fmt.Fprintf(stdin, "%d %d\n", idx, ud.UnixMilli())
+				fmt.Fprintf(stdin, "%d %d %d\n", idx, ud.UnixMilli(), passCap)
 				stdin.Flush()
 				line, err := stdout.ReadBytes('\n')
 				if err != nil {
@@ -422,7 +444,31 @@ func coordinator(prop, tier string) int {
 	}
 	wg.Wait()
 	}
-	runPass(order)
+	if tier == "thorough" {
+		// first every unit to bound 1 (what the quick tier completes), so that no unit is left unexplored
+		passCap = 1
+		runPass(order)
+		passCap = -1
+		passes = 0
+		for _, r := range results {
+			if r != nil && r.Exhaustive && r.Capped {
+				r.Exhaustive = false // only up to the cap: the deeper passes decide
+			}
+		}
+	}
+	if tier == "thorough" {
+		var rest []int
+		for _, i := range order {
+			if r := results[i]; r == nil || !r.Exhaustive {
+				rest = append(rest, i)
+			}
+		}
+		if len(rest) > 0 {
+			runPass(rest)
+		}
+	} else {
+		runPass(order)
+	}
 	// thorough tier: units cut short by their fair share are taken up again while budget remains
 	for tier == "thorough" && passes < 4 && time.Until(deadline) > 90*time.Second {
 		var again []int
